@@ -33,18 +33,26 @@ def _mk(su: Setup, layout: tuple[int, ...], pool_to: int | None, behaviours: tup
     return cs
 
 
-@harness(
-    "C07", "pool_conc",
-    quick=[{"ct": ct, "N": n, "P": 1, "_pre": f"lay == {lay} and beh <= 1 and {mode}"}
-           for (ct, n) in (("h11", 1), ("h11", 2), ("h2", 1), ("h1-on-h2-pool", 1), ("socks-on-h2-pool", 1)) for lay in (2, 3)
-           for mode in ("cancel == 0 and d0 <= 30", "cancel > 0 and d0 == 0 and c0 == 0")],
-    per_prop={p: {"quick": [{"ct": ct, "N": 1, "P": 1, "_pre": f"lay == {lay} and beh <= 1 and pto == 0 and {mode}"}
+_PER_PROP = {p: {"quick": [{"ct": ct, "N": 1, "P": 1, "_pre": f"lay == {lay} and beh <= 1 and pto == 0 and {mode}"}
                             for ct in ("h11", "h2", "socks-on-h2-pool") for lay in (3,)
                             for mode in ("cancel == 0 and d0 <= 30", "cancel > 0 and d0 == 0 and c0 == 0")],
                   "thorough": [{"ct": ct, "N": n, "P": 1, "_pre": f"lay == {lay} and {mode}"}
                                for ct in ("h11", "h2", "h1-on-h2-pool", "socks-on-h2-pool") for n in (1, 2) for lay in (2, 3, 4)
                                for mode in ("cancel == 0", "cancel > 0 and d0 == 0 and c0 == 0")]}
-              for p in ("C01", "C04", "C05", "C06", "C08", "C15")},
+              for p in ("C01", "C04", "C05", "C06", "C08", "C15")}
+# C01: two HTTP/2 connections in flight at once with the same stream ids (cross-talk *between*
+# connections), under every single schedule deviation
+_PER_PROP["C01"] = dict(_PER_PROP["C01"])
+_PER_PROP["C01"]["quick"] = _PER_PROP["C01"]["quick"] + [
+    {"ct": "h2", "N": 2, "P": 1, "_pre": "lay == 1 and beh == 0 and pto == 0 and cancel == 0 and d0 <= 30"}]
+
+
+@harness(
+    "C07", "pool_conc",
+    quick=[{"ct": ct, "N": n, "P": 1, "_pre": f"lay == {lay} and beh <= 1 and {mode}"}
+           for (ct, n) in (("h11", 1), ("h11", 2), ("h2", 1), ("h1-on-h2-pool", 1), ("socks-on-h2-pool", 1)) for lay in (2, 3)
+           for mode in ("cancel == 0 and d0 <= 30", "cancel > 0 and d0 == 0 and c0 == 0")],
+    per_prop=_PER_PROP,
     thorough=[{"ct": ct, "N": 1, "P": 2, "_timeout": 900,
                "_pre": f"lay == {lay} and cancel == 0 and beh == 0 and pto == 0 and d0 % 4 == {r}"}
               for ct in ("h11", "h2") for lay in (2, 3) for r in range(4)]
